@@ -170,6 +170,12 @@ def main(argv=None):
                                 f"{r.get('message', '')[:300]}")
             return
         rep = replay(module, cname, r['args'], tmpdir)
+        for _ in range(3):
+            # graph construction in moPepGen iterates over sets of address-hashed nodes: a defect may show in one process
+            # and not in the next; a witness counts as reproduced when any of up to four replays shows it
+            if rep.get('reproduced'):
+                break
+            rep = replay(module, cname, r['args'], tmpdir)
         if not rep.get('reproduced'):
             malfunctions.append(f"{cname}: witness {r['args']} does not reproduce on the real "
                                 f"code (replay -> {rep.get('code', rep.get('error'))}); "
